@@ -59,6 +59,7 @@ contract(
     requires=[("room", "0 <= seconds_used and used(self, sb_idx) + seconds_used <= D(self)"), ("ledger", "Ledger(self)")],
     ensures=[("ledger", "Ledger(self)"),
              ("frame", "forall(s, implies(s != sb_idx, used(self, s) == old(used(self, s)) and usage(self, s) == old(usage(self, s))))")],
+    modifies=["$obj:self.slotSecondsUsed"],
     note="no caller in the repository today; kept under contract because it writes the ledger",
 )
 
@@ -70,6 +71,7 @@ contract(
               ("idx", "implies(self.scoreboard is not None, 0 <= sb_idx and sb_idx < len(some(self.scoreboard).sb))")],
     ensures=[("ledger", "Ledger(self)"),
              ("frame", "forall(s, implies(s != sb_idx, used(self, s) == old(used(self, s)) and usage(self, s) == old(usage(self, s))))")],
+    modifies=["$obj:self.slotSecondsUsed", "$obj:some(self.scoreboard).sb"],
     note="no caller in the repository today; kept under contract because it writes the ledger",
 )
 
@@ -130,7 +132,12 @@ contract(
 )
 
 TS = "scriptplan/core/task_scenario.py"
-fields_of("TaskScenario", property=Ref("Task"), project=Ref("Project"), scenarioIdx=Int)
+# what a booking may write: this resource's ledger and bookkeeping, its scoreboard marker, the duties list,
+# and limit counters (any limit: own, groups', the task's and its ancestors')
+BOOK_MODIFIES = ["$obj:self.slotSecondsUsed", "$obj:self.slotTaskUsage", "$region:ResourceScenario.slotTaskUsage.v",
+                 "$obj:self.firstBookedSlots", "$obj:self.lastBookedSlots", "ResourceScenario._effort@self",
+                 "ResourceScenario.firstBookedSlot@self", "ResourceScenario.lastBookedSlot@self",
+                 "$obj:some(self.scoreboard).sb", "$region:@duties", "Limit._dirty", "$region:Limit._scoreboard"]
 
 # every counter of a limits collection that applies to resource id `res` has one more booking in the period of
 # slot i; nothing is uncounted
@@ -198,6 +205,7 @@ contract(
     },
     static={"hasattr(limits, 'inc')": True, "hasattr(parent_limits, 'inc')": True, "hasattr(task, 'data')": True,
             "hasattr(task_scenario, 'incLimits')": True},
+    modifies=BOOK_MODIFIES,
     loops={0: {"inv": [("cursor", "parent == anc(self.property, _k)")],
                "locals": {"parent": Opt(Ref("Resource")), "parent_limits": Opt(Ref("Limits"))}}},
     locals={"parent": Opt(Ref("Resource"))},
